@@ -309,7 +309,48 @@ def r03_4(ctx, S, prog, crate):
             ctx.check(ok, "R03.4", [b.path, "counted-from-start-iff-collect"], "the initial counter is not guarded by current_mode.is_collect()", b.where(bi))
 
 
+def iter_count_rule(ctx, rule, prog, crate):
+    """SampleCollection::iter_count = (sample_size as u64) * (time_samples.len() as u64): both factors are widened to 64 bits
+    BEFORE the multiplication (a 32-bit product wraps or panics from 2^32 iterations on).  Shared by R03.5 and R05.6."""
+    from lib.patheval import PathEval
+    from lib.symexpr import show
+    ic = prog.body("stats::sample::SampleCollection::iter_count", crate)
+    if not ctx.anchor(rule, "SampleCollection::iter_count", 1 if ic else 0, 1):
+        return
+    ctx.saw(ic)
+    sums = PathEval(ic, keep_casts=True).run()
+    ok = sums is not None and len(sums) == 1
+    e = sums[0].ret if ok else None
+
+    def widened(x):
+        # `x as u64`, `u64::from(x)`, `x.into()` with a 64-bit (or wider) result
+        if x[0] == "cast" and x[1] in ("u64", "u128", "usize"):
+            return x[2]
+        if x[0] in ("site", "call") and x[1].endswith(("::from", "::into")) and ("u64" in x[1] or "u128" in x[1]):
+            a = x[3] if x[0] == "site" else x[2]
+            return a[0] if a else None
+        return None
+    good = False
+    if ok and e[0] == "mul" and len(e[1]) == 2:
+        inner = [widened(f) for f in e[1]]
+        if all(i is not None for i in inner):
+            kinds = set()
+            for i in inner:
+                if i == ("arg", 1, ("sample_size",)):
+                    kinds.add("size")
+                elif i[0] == "call" and i[1].rsplit("::", 1)[-1] == "len" and i[2] and i[2][0] in (("sptr", (1, ("time_samples",))), ("ptr", (1, ("time_samples",)))):
+                    kinds.add("count")
+                elif i[0] == "cast" and i[2][0] == "call" and i[2][1].rsplit("::", 1)[-1] == "len":
+                    kinds.add("narrowed-count")
+            good = kinds == {"size", "count"}
+    ctx.check(good, rule, ["iter_count", "widened-before-multiplying"],
+              "iter_count is %s, expected (sample_size as u64) * (time_samples.len() as u64) - both factors 64 bits wide before the product" % (show(e) if e else "not a single path"),
+              ic.where(0), detail=show(e) if e else None)
+    ctx.check(ic.local_ty(0) in ("u64", "u128"), rule, ["iter_count", "returns-64-bits"], "iter_count returns %s" % ic.local_ty(0), ic.where(0))
+
+
 def r03_5(ctx, prog, crate):
+    iter_count_rule(ctx, "R03.5", prog, crate)
     cs = prog.body("benchmark::BenchContext::compute_stats", crate)
     if not ctx.anchor("R03.5", "compute_stats", 1 if cs else 0, 1):
         return
